@@ -24,7 +24,7 @@ class TranslateError(Exception):
     pass
 
 
-TOKEN = re.compile(r"\s*(=>|==|!=|&&|\|\||::|->|[A-Za-z_][A-Za-z0-9_]*|\d+|[{}()\[\],;:.|!&=<>_*])")
+TOKEN = re.compile(r"\s*(=>|==|!=|<=|>=|&&|\|\||::|->|[A-Za-z_][A-Za-z0-9_]*|\d+|\"(?:[^\"\\\\]|\\\\.)*\"|[{}()\[\],;:.|!&=<>_*#?])")
 
 
 def tokenize(src):
@@ -117,6 +117,10 @@ class P:
             op = self.eat()
             b = self.unary()
             return f"(decide ({a} = {b}))" if op == "==" else f"(decide ({a} ≠ {b}))"
+        if self.peek() in ("<", ">", "<=", ">="):
+            op = {"<": "<", ">": ">", "<=": "≤", ">=": "≥"}[self.eat()]
+            b = self.unary()
+            return f"(decide ({a} {op} {b}))"
         return a
 
     def unary(self):
@@ -170,7 +174,7 @@ class P:
     def ctor(self, parts):
         """enum constructor / function path → Lean"""
         if len(parts) == 1:
-            return parts[0]
+            return self.ctx.get("consts", {}).get(parts[0], parts[0])
         ty, v = parts[-2], parts[-1]
         if ty == "Self":
             ty = self.ctx["self"]
@@ -319,6 +323,35 @@ class P:
         return build(0)
 
 
+def guard_cascade(p):
+    """`{ if C1 { return Err(..); } … if Cn { return Err(..); } Ok(()) }`  →  the list [C1 … Cn] as Lean Bool terms"""
+    p.eat("{")
+    conds = []
+    while p.peek() == "if":
+        p.eat("if")
+        conds.append(p.expr())
+        p.eat("{")
+        p.eat("return")
+        if p.eat() != "Err":
+            raise TranslateError("guard body is not `return Err(..)`")
+        depth = 0
+        while True:
+            t = p.eat()
+            if t == "(":
+                depth += 1
+            elif t == ")":
+                depth -= 1
+                if depth == 0:
+                    break
+        p.eat(";")
+        p.eat("}")
+    for t in ("Ok", "(", "(", ")", ")", "}"):
+        p.eat(t)
+    if p.peek() is not None or not conds:
+        raise TranslateError("not a pure guard cascade")
+    return conds
+
+
 CTX = {
     "self": "Fingerprint",
     "fields": {"blake3": "digest"},
@@ -341,7 +374,7 @@ FUNCS = [
 
 
 def translate():
-    L = ["import Copia.Model.Reconcile", "import Copia.Model.Plan",
+    L = ["import Copia.Model.Reconcile", "import Copia.Model.Plan", "import Copia.Gen.Constants",
          "/-! GENERATED by tools/rs2lean.py from /repo on every check run — do not edit. -/", "namespace Copia.Gen", "",
          "inductive Cas | commit | conflict", "  deriving DecidableEq, Repr", ""]
     for rel, fn, want_sig, header in FUNCS:
@@ -358,6 +391,20 @@ def translate():
         L.append(header)
         L.append("  " + lean)
         L.append("")
+    # FrameHeader::validate — a guard cascade over the header's fields and the protocol constants
+    text = open(os.path.join(REPO, "src/protocol.rs"), encoding="utf-8").read()
+    impl = text[text.index("impl FrameHeader {"):]
+    sig, body = fn_source(impl, "validate")
+    if re.sub(r"\s+", "", sig.replace("pub ", "")) != "fnvalidate(&self)->Result<()>":
+        raise TranslateError(f"signature of FrameHeader::validate changed: {sig!r}")
+    ctx = dict(CTX, consts={"PROTOCOL_MAGIC": "protocolMagic", "PROTOCOL_VERSION": "protocolVersion", "MAX_PAYLOAD_SIZE": "maxPayloadSize", "self": "self"},
+               fields={"magic": "magic", "version": "version", "length": "length"})
+    conds = guard_cascade(P(tokenize(body), ctx))
+    conds = [c.replace("self.magic", "magic").replace("self.version", "version").replace("self.length", "length") for c in conds]
+    L.append("/-- `src/protocol.rs::FrameHeader::validate`: `true` iff no guard fires (every guard returns `Err`) -/")
+    L.append("def headerValid (magic : List Nat) (version length : Nat) : Bool :=")
+    L.append("  " + " && ".join(f"!{c}" for c in conds))
+    L.append("")
     L.append("end Copia.Gen")
     return "\n".join(L) + "\n"
 
